@@ -43,8 +43,8 @@ static void cb(tp_event_p ev, tp_udata_p ud) { (void)ev; (void)ud; n_cb++; }
 void harness(void) {
 	V_BEGIN();
 	tpev_env_init(IN.s_flags);
-	tp_udata_t *ud = (tp_udata_t *)v_alloc(sizeof(tp_udata_t));
-	memset(ud, 0, sizeof(*ud));
+	static tp_udata_t ud_obj;	/* static: constant propagation (see tpev_env.h) */
+	tp_udata_t *ud = &ud_obj;
 	ud->cb_func = cb;
 	ud->ident = (uintptr_t)IN.ident;
 	V_ASSUME(ud->ident != (uintptr_t)-1);
@@ -54,7 +54,7 @@ void harness(void) {
 	V_ASSUME((IN.fflags0 & TP_FF_T_TM_MASK) == TP_FF_T_SEC);	/* bound: the earlier registration was made in seconds */
 	int r0 = tpt_ev_add_args(tpev_tpt, TP_EV_TIMER, IN.flags0, IN.fflags0, IN.data0, ud);
 	V_ASSUME(r0 == 0);
-	tfd0 = tpev_log_cre[0].ret;
+	tfd0 = tpev_lcre_ret[0];
 	base_cre = tpev_n_cre; base_ctl = tpev_n_ctl; base_set = tpev_n_set;
 	V_ASSUME(IN.flags == IN.flags0);	/* bound: one flag set per timer identifier */
 	V_ASSUME((IN.abstime != 0) == ((IN.fflags0 & TP_FF_T_ABSTIME) != 0));	/* bound: clock kind fixed per identifier */
@@ -91,7 +91,7 @@ void harness(void) {
 #endif
 	int representable = (want_sec <= (uint64_t)INT64_MAX);	/* seconds fit time_t */
 	int env_ok = 1;
-	for (int i = base_cre; i < tpev_n_cre; i++) if (tpev_log_cre[i].ret < 0) env_ok = 0;
+	for (int i = base_cre; i < tpev_n_cre; i++) if (tpev_lcre_ret[i] < 0) env_ok = 0;
 	for (int i = base_ctl; i < tpev_n_ctl; i++) if (IN.env.ctl_err[i] != 0) env_ok = 0;
 	for (int i = base_set; i < tpev_n_set; i++) if (IN.env.set_err[i] != 0) env_ok = 0;
 
@@ -111,35 +111,36 @@ void harness(void) {
 		V_ASSERT(r != 0, "a value whose seconds do not fit time_t is refused");
 
 	if (r == 0) {
-		int tfd = PRE ? tfd0 : tpev_log_cre[0].ret;
+		int tfd = PRE ? tfd0 : tpev_lcre_ret[0];
 #if !PRE
-		V_ASSERT(tpev_n_cre == 1 && tpev_log_cre[0].is_pidfd == 0, "exactly one timerfd is created");
-		V_ASSERT(tpev_log_cre[0].clock == (IN.abstime ? CLOCK_REALTIME : CLOCK_MONOTONIC),
+		V_ASSERT(tpev_n_cre == 1 && tpev_lcre_is_pidfd[0] == 0, "exactly one timerfd is created");
+		V_ASSERT(tpev_lcre_clock[0] == (IN.abstime ? CLOCK_REALTIME : CLOCK_MONOTONIC),
 		    "ABSTIME <=> CLOCK_REALTIME, relative <=> CLOCK_MONOTONIC");
-		V_ASSERT(tpev_log_cre[0].flags == (TFD_NONBLOCK | ((IN.s_flags & TP_S_F_CLOEXEC) ? TFD_CLOEXEC : 0)),
+		V_ASSERT(tpev_lcre_flags[0] == (TFD_NONBLOCK | ((IN.s_flags & TP_S_F_CLOEXEC) ? TFD_CLOEXEC : 0)),
 		    "timerfd flags: non-blocking, close-on-exec as the pool says");
-		V_ASSERT(tpev_n_ctl == 1 && tpev_log_ctl[0].op == EPOLL_CTL_ADD && tpev_log_ctl[0].epfd == TPEV_EPFD &&
-		    tpev_log_ctl[0].fd == tfd && tpev_log_ctl[0].ptr == (void *)ud,
+		V_ASSERT(tpev_n_ctl == 1 && tpev_lc_op[0] == EPOLL_CTL_ADD && tpev_lc_epfd[0] == TPEV_EPFD &&
+		    tpev_lc_fd[0] == tfd && tpev_lc_ptr[0] == (void *)ud,
 		    "the timerfd is added to the owning thread's epoll set with the udata");
-		V_ASSERT((tpev_log_ctl[0].events & EPOLLIN) != 0 && (tpev_log_ctl[0].events & EPOLLONESHOT) == 0,
+		V_ASSERT((tpev_lc_events[0] & EPOLLIN) != 0 && (tpev_lc_events[0] & EPOLLONESHOT) == 0,
 		    "timerfd watched for EPOLLIN, one-shot handled by the timer itself");
 #else
 		V_ASSERT(tpev_n_cre == base_cre && tpev_n_ctl == base_ctl, "re-arming does not create a second timerfd");
 #endif
 		V_ASSERT(tpev_n_set == base_set + 1, "exactly one timerfd_settime");
-		struct tpev_set_log_s *l = &tpev_log_set[base_set];
-		V_ASSERT(l->fd == tfd && l->ret == 0, "the timer's own descriptor is programmed");
-		V_ASSERT(l->flags == (IN.abstime ? TFD_TIMER_ABSTIME : 0), "ABSTIME <=> TFD_TIMER_ABSTIME");
+		const int ls = base_set;
+		struct timespec lv = { .tv_sec = tpev_ls_val_sec[ls], .tv_nsec = tpev_ls_val_nsec[ls] };
+		V_ASSERT(tpev_ls_fd[ls] == tfd && tpev_ls_ret[ls] == 0, "the timer's own descriptor is programmed");
+		V_ASSERT(tpev_ls_flags[ls] == (IN.abstime ? TFD_TIMER_ABSTIME : 0), "ABSTIME <=> TFD_TIMER_ABSTIME");
 		int ti = tpev_t_find(tfd);
 		V_ASSERT(ti >= 0, "timerfd still open");
-		V_ASSERT(tpev_t[ti].clock == (IN.abstime ? CLOCK_REALTIME : CLOCK_MONOTONIC), "clock of the armed descriptor matches ABSTIME");
-		V_ASSERT(tpev_ts_valid(&l->v.it_value), "it_value is a normalised timespec");
-		V_ASSERT((uint64_t)l->v.it_value.tv_sec == want_sec && (uint64_t)l->v.it_value.tv_nsec == want_nsec,
+		V_ASSERT(tpev_t_clock[ti] == (IN.abstime ? CLOCK_REALTIME : CLOCK_MONOTONIC), "clock of the armed descriptor matches ABSTIME");
+		V_ASSERT(tpev_ts_valid(&lv), "it_value is a normalised timespec");
+		V_ASSERT((uint64_t)tpev_ls_val_sec[ls] == want_sec && (uint64_t)tpev_ls_val_nsec[ls] == want_nsec,
 		    "it_value == data * unit (Euclid form; 128-bit product by lemma.c)");
 		if (flags & (TP_F_ONESHOT | TP_F_DISPATCH))
-			V_ASSERT(l->v.it_interval.tv_sec == 0 && l->v.it_interval.tv_nsec == 0, "one-shot/dispatch: zero interval");
+			V_ASSERT(tpev_ls_int_sec[ls] == 0 && tpev_ls_int_nsec[ls] == 0, "one-shot/dispatch: zero interval");
 		else
-			V_ASSERT(l->v.it_interval.tv_sec == l->v.it_value.tv_sec && l->v.it_interval.tv_nsec == l->v.it_value.tv_nsec,
+			V_ASSERT(tpev_ls_int_sec[ls] == tpev_ls_val_sec[ls] && tpev_ls_int_nsec[ls] == tpev_ls_val_nsec[ls],
 			    "periodic: it_interval == it_value");
 		V_ASSERT(TPDATA_TFD_GET(ud->tpdata) == tfd && (ud->tpdata & TPDATA_F_DISABLED) == 0 &&
 		    TPDATA_EVENT_GET(ud->tpdata) == TP_EV_TIMER,
@@ -162,9 +163,9 @@ void harness(void) {
 		/* refused: nothing may stay installed */
 		V_ASSERT(ud->tpdata == 0, "refused timer leaves no state in the udata");
 		for (int i = 0; i < TPEV_TSLOTS; i++)
-			V_ASSERT(!tpev_t[i].open, "refused timer leaves no open timerfd");
+			V_ASSERT(!tpev_t_open[i], "refused timer leaves no open timerfd");
 		for (int i = 1; i < TPEV_KSLOTS; i++)
-			V_ASSERT(!tpev_k[i].used, "refused timer leaves no epoll registration");
+			V_ASSERT(!tpev_k_used[i], "refused timer leaves no epoll registration");
 		if (!representable) V_WITNESS("unrepresentable value refused");
 		if (!env_ok) V_WITNESS("kernel failure reported");
 		V_WITNESS("timer refused");
